@@ -94,7 +94,9 @@ type Interp struct {
 	curPos  token.Pos
 	fresh   int
 	steps   int
-	gate    string // key of the branch condition controlling the merge being computed
+	gate      string // key of the branch condition controlling the merge being computed
+	gateExact bool   // the merge has exactly one live edge per side of that branch
+	gateSwap  bool   // the first merged value comes from the false side
 }
 
 func New() *Interp {
@@ -261,7 +263,7 @@ func (ip *Interp) Call(fn *ssa.Function, args []Val, bind []Val, st *State) (res
 			continue // dead block
 		}
 		ip.LiveBlock[b] = true
-		ip.gate = ""
+		ip.gate, ip.gateExact, ip.gateSwap = "", false, false
 		if len(in) > 1 {
 			// the branch controlling this merge: terminator of the nearest common
 			// dominator of the live predecessors
@@ -283,6 +285,31 @@ func (ip *Interp) Call(fn *ssa.Function, args []Val, bind []Val, st *State) (res
 				if iff, ok := lca.Instrs[len(lca.Instrs)-1].(*ssa.If); ok {
 					if cv, ok := act.env[iff.Cond]; ok {
 						ip.gate = ValKey(cv)
+						// an exact gated merge (gamma function) needs two live edges, one
+						// per side of the branch, and a condition with an identity
+						if cb, isB := cv.(*Bool); isB && len(in) == 2 && (cb.Cmp != nil || cb.Key != "") && lca.Succs[0] != lca.Succs[1] {
+							side := func(p *ssa.BasicBlock) int {
+								if p == lca {
+									if b == lca.Succs[0] {
+										return 0
+									}
+									return 1
+								}
+								t, f := lca.Succs[0].Dominates(p), lca.Succs[1].Dominates(p)
+								switch {
+								case t && !f:
+									return 0
+								case f && !t:
+									return 1
+								}
+								return -1
+							}
+							s0, s1 := side(in[0].pred), side(in[1].pred)
+							if s0 >= 0 && s1 >= 0 && s0 != s1 {
+								ip.gateExact = true
+								ip.gateSwap = s0 == 1
+							}
+						}
 					}
 				}
 			}
